@@ -345,3 +345,33 @@ pub fn c08_resolve() -> i32 {
     }
     report(found, tried)
 }
+
+// ---------------------------------------------------------------------------------------------
+// C10 / U-MIXED: create_composite_ir_kind on field lists of 1..4 fields with every named/unnamed pattern
+pub fn c10_mixed() -> i32 {
+    use scale_typegen::typegen::type_params::TypeParameters;
+    let mut tried = 0;
+    let mut found = None;
+    let reg = registry(vec![ty("", vec![], prim(TypeDefPrimitive::U8))]);
+    let settings = TypeGeneratorSettings::default();
+    let gen = TypeGenerator::new(&reg, &settings);
+    'o: for n in 0..=4usize {
+        for pat in 0..(1u32 << n) {
+            let fields: Vec<_> = (0..n).map(|i| if pat & (1 << i) != 0 { field(Some(&format!("f{i}")), 0, Some("u8")) } else { field(None, 0, Some("u8")) }).collect();
+            let named = fields.iter().filter(|f| f.name.is_some()).count();
+            let is_mixed = named != 0 && named != n;
+            tried += 1;
+            let mut tp = TypeParameters::from_scale_info(&[]);
+            let r = panic::catch_unwind(panic::AssertUnwindSafe(|| gen.create_composite_ir_kind(&fields, &mut tp)));
+            let why = match r {
+                Err(_) => Some("panic".to_string()),
+                Ok(Err(TypegenError::InvalidFields(_))) if is_mixed => None,
+                Ok(Err(e)) => Some(format!("unexpected error {e}")),
+                Ok(Ok(_)) if is_mixed => Some("a composite mixing named and unnamed fields was accepted".to_string()),
+                Ok(Ok(k)) => if n == 0 && !matches!(k, CompositeIRKind::NoFields) { Some("empty field list is not NoFields".to_string()) } else { None },
+            };
+            if let Some(w) = why { found = Some((format!("create_composite_ir_kind on {n} fields, named-mask {pat:#b}"), w)); break 'o; }
+        }
+    }
+    report(found, tried)
+}
